@@ -148,10 +148,136 @@ fn scenarios(thorough: bool) -> Vec<Sc> {
     v
 }
 
+/// Long runs of supervision events: `pre` events are handled one at a time with nothing else pending, the next one
+/// holds the actor inside its supervision handler while `burst` further events and one user message (cast before
+/// or after them) pile up; when the handler is released every pick finds events and the message pending together.
+/// The clause is the property's own: a message handler never starts while a supervision event that was enqueued
+/// before the previous callback finished is still unhandled — however many events the actor has handled in a row.
+fn streak_body(kind: Kind, pre: usize, burst: usize, msg_first: bool) -> vsched::Body {
+    use std::sync::atomic::{AtomicBool, Ordering};
+    std::sync::Arc::new(move || {
+        Box::pin(async move {
+            let log = Log::default();
+            let spawner = ractor::thread_local::ThreadLocalActorSpawner::verif_new_local();
+            let hold = std::sync::Arc::new(AtomicBool::new(false));
+            let h2 = hold.clone();
+            let gate: CustomFn = std::sync::Arc::new(move |_me| {
+                let h = h2.clone();
+                Box::pin(async move {
+                    let mut spins = 0;
+                    while h.load(Ordering::SeqCst) && spins < 10_000 {
+                        vsched::yield_now().await;
+                        spins += 1;
+                    }
+                    Ok(())
+                })
+            });
+            let prog = Prog { sup: vec![Step::Custom("gate", gate)], ..Default::default() };
+            let (x_ref, x_h) = ractor::Actor::spawn(None, Probe, args("X", Prog::default(), &log)).await.expect("X");
+            let (a_ref, a_h, _) = spawn_probe(kind, Variant::Plain, None, args("A", prog, &log), None, &spawner).await.expect("A");
+            let group = "streak".to_string();
+            ractor::pg::monitor(group.clone(), a_ref.get_cell());
+            let mut enq: Vec<u64> = Vec::new();
+            let mut joined = false;
+            let mut event = |enq: &mut Vec<u64>| {
+                if joined {
+                    ractor::pg::leave(group.clone(), vec![x_ref.get_cell()]);
+                } else {
+                    ractor::pg::join(group.clone(), vec![x_ref.get_cell()]);
+                }
+                joined = !joined;
+                enq.push(vsched::ret_stamp());
+            };
+            for _ in 0..pre {
+                event(&mut enq);
+                vsched::quiesce();
+            }
+            hold.store(true, Ordering::SeqCst);
+            event(&mut enq);
+            vsched::quiesce();
+            let mut cast_ret = 0;
+            if msg_first {
+                let _ = a_ref.cast(do_msg(1, vec![Step::Tick]));
+                cast_ret = vsched::ret_stamp();
+            }
+            for _ in 0..burst {
+                event(&mut enq);
+            }
+            if !msg_first {
+                let _ = a_ref.cast(do_msg(1, vec![Step::Tick]));
+                cast_ret = vsched::ret_stamp();
+            }
+            hold.store(false, Ordering::SeqCst);
+            vsched::quiesce();
+            if joined {
+                ractor::pg::leave(group.clone(), vec![x_ref.get_cell()]);
+            }
+            ractor::pg::demonitor(group.clone(), a_ref.get_id());
+            vsched::quiesce();
+            a_ref.stop(None);
+            if let Some(h) = a_h {
+                let _ = h.await;
+            }
+            x_ref.stop(None);
+            let _ = x_h.await;
+            let a = log.of("A");
+            let mut bad = Vec::new();
+            let sup_enters: Vec<u64> = a.iter().filter(|e| matches!(e.cb, Cb::Sup(_)) && e.kind == EvKind::Enter).map(|e| e.lc).collect();
+            if sup_enters.len() < enq.len() {
+                bad.push(format!("{} supervision events were enqueued, {} were handled", enq.len(), sup_enters.len()));
+            }
+            match a.iter().find(|e| e.cb == Cb::Handle(1) && e.kind == EvKind::Enter) {
+                None => bad.push("the message was never handled".into()),
+                Some(h) => {
+                    // the pick that chose the message happened after the previous callback had finished
+                    let prev_exit = a.iter().filter(|e| e.lc < h.lc && matches!(e.kind, EvKind::ExitOk | EvKind::ExitErr)).map(|e| e.lc).max().unwrap_or(0);
+                    let pending = enq.iter().filter(|&&r| r < prev_exit).count();
+                    let handled = sup_enters.iter().filter(|&&l| l < h.lc).count();
+                    if handled < pending {
+                        bad.push(format!(
+                            "the message handler started at #{} after {} supervision events although {} had been enqueued before the previous callback finished (#{}); message cast returned at #{}",
+                            h.lc, handled, pending, prev_exit, cast_ret
+                        ));
+                    }
+                }
+            }
+            let order: String = a
+                .iter()
+                .filter(|e| e.kind == EvKind::Enter)
+                .map(|e| match e.cb {
+                    Cb::Sup(_) => 's',
+                    Cb::Handle(_) => 'h',
+                    _ => '.',
+                })
+                .collect();
+            vsched::Outcome { key: order, violations: bad }
+        })
+    })
+}
+
 pub fn plan(tier: &str) -> Plan {
     let thorough = tier == "thorough";
     let cfg = ExecCfg::default();
     let mut units = Vec::new();
+    for kind in [Kind::Send, Kind::Local] {
+        let pres: Vec<usize> = if thorough { (0..=34).chain([63, 64, 65, 127, 128, 129, 255, 256, 257]).collect() } else { vec![0, 3, 7, 8, 15, 16, 31, 32] };
+        let bursts: &[usize] = if thorough { &[1, 2, 12, 40, 70, 140, 300] } else { &[1, 12, 40] };
+        for &pre in &pres {
+            for &burst in bursts {
+                if thorough && burst > 40 && pre > 2 {
+                    continue;
+                }
+                for msg_first in [true, false] {
+                    units.push(Unit::explore(Job::new(
+                        format!("streak/c03/{kind:?}/pre{pre}+burst{burst}/{}", if msg_first { "message-first" } else { "message-last" }),
+                        cfg.clone(),
+                        Some(if thorough { 1 } else { 0 }),
+                        streak_body(kind, pre, burst, msg_first),
+                    )));
+                }
+            }
+        }
+    }
     for sc in scenarios(thorough) {
         let bound = if thorough { 4 } else { 3 };
         units.push(Unit::explore_split(Job::new(format!("c03/{}", sc.name()), cfg.clone(), Some(bound), body(sc, oracle)), if thorough { 8 } else { 4 }));
